@@ -308,9 +308,21 @@ func (u *UnitsDefinition) handleParseMultiplier(
 				Message: fmt.Sprintf("Failed to parse number as int: %s", result),
 			}
 		}
-		floatNumber += float64(i * multiplier)
+		// The product and the sum must fit into 64 bits, otherwise the result would silently wrap around.
+		if i != 0 && multiplier > math.MaxInt64/i {
+			return intNumber, floatNumber, isFloat, BadArgumentError{
+				Message: fmt.Sprintf("Number is too large for 64 bits: %s x %d", result, multiplier),
+			}
+		}
+		product := i * multiplier
+		if product > math.MaxInt64-intNumber {
+			return intNumber, floatNumber, isFloat, BadArgumentError{
+				Message: fmt.Sprintf("Number is too large for 64 bits: %s x %d", result, multiplier),
+			}
+		}
+		floatNumber += float64(product)
 		if !isFloat {
-			intNumber += i * multiplier
+			intNumber += product
 		}
 	}
 	return intNumber, floatNumber, isFloat, nil
